@@ -17,6 +17,7 @@ RULE = ("event histories (4..18 events) over {connect request (interface.connect
         "(connected / disconnected near and far), login attempts, entities, dispatcher creations / closes / writes are compared with the Lean "
         "model; the oracle checks the property's clauses on the real trace. stream 'dispcontract': the real asyncore dispatcher object in the "
         "connecting / connected state (no network) must answer disconnect / close / connect-event / send with the same callbacks as the dispatcher double. thorough: all histories up to length 6. distinct = distinct history.")
+RULE += (" stream 'realdisp' also asks for the disconnect from an application thread on an idle connection (both real dispatchers): the peer must see the end and DISCONNECTED must be announced.")
 ASSUMPTIONS = ["dispatcher double implements the asyncore dispatcher's contract (connect -> later handle_connect | handle_error; disconnect -> synchronous "
                "handle_close -> onDisconnected; sendData dropped unless connected); real sockets / DNS / TLS are not exhibited",
                "the keep-alive thread runs on a virtual clock (one real loop iteration per tick); the noise and axolotl layers' reset on DISCONNECTED is C04's / C14's subject"]
@@ -132,6 +133,7 @@ def cases(chk):
         for ops in (["disconnect"], ["disconnect", "send"], ["close"], ["connect-event", "disconnect"], ["send", "disconnect", "disconnect"], ["close", "disconnect"]):
             yield "dispcontract", {"state": state, "ops": ops}
     for disp in ("socket", "asyncore"):
+        yield "realdisp", {"dispatcher": disp, "errors": [], "reconnect": 1, "then": "disconnect"}
         yield "realdisp", {"dispatcher": disp, "errors": ["ack", "ack"], "reconnect": 1}
         if not chk.quick() or disp == "socket":
             yield "realdisp", {"dispatcher": disp, "errors": ["ack", "conflict"], "reconnect": 1}
@@ -553,9 +555,26 @@ def run_realdisp(chk, case):
                 if i < len(kinds):
                     time.sleep(0.05)
                     c.sendall(b"C" if kinds[i] == "conflict" else b"E")   # then a stream error
+                elif case.get("then"):
+                    threading.Thread(target=peer_reads, args=(c,), daemon=True).start()
             except OSError:
                 pass
+
+    peer_saw_end = []
+
+    def peer_reads(c):
+        """the peer on the connection that stays up: reads until the client ends its side, then closes (as a server does)"""
+        try:
+            c.settimeout(5)
+            while c.recv(1024):
+                pass
+            peer_saw_end.append(1)
+            time.sleep(0.1)
+            c.close()
+        except OSError:
+            pass
     threading.Thread(target=server, daemon=True).start()
+    seen_events = []
 
     class Conv(YowLayer):
         """the peer's bytes as stanzas (stands for the noise + coder layers)"""
@@ -570,6 +589,9 @@ def run_realdisp(chk, case):
 
         def send(self, data):
             pass
+
+        def onEvent(self, ev):
+            seen_events.append(ev.getName())
     iface = YowInterfaceLayer()
     import yowsup.layers.network.layer as nl
     from yowsup.layers.network.dispatcher.dispatcher_asyncore import AsyncoreConnectionDispatcher as RealAsyncore
@@ -604,6 +626,22 @@ def run_realdisp(chk, case):
         time.sleep(0.05)
     time.sleep(0.6)           # a further, unwanted connection would show up now
     got = len(accepted)
+    if case.get("then") == "disconnect" and got == want:
+        # the connection is up and idle (the reader waits for bytes); the application, from a thread of its own, asks for the disconnect:
+        # the peer must see the connection end and the stack must announce DISCONNECTED
+        del seen_events[:]
+        chk.hit("realdisp:disconnect-from-another-thread")
+        req = threading.Thread(target=lambda: stack.broadcastEvent(YowLayerEvent(YowNetworkLayer.EVENT_STATE_DISCONNECT, reason="application")), daemon=True)
+        req.start()
+        end = time.time() + 4
+        while time.time() < end and not (peer_saw_end and YowNetworkLayer.EVENT_STATE_DISCONNECTED in seen_events):
+            time.sleep(0.05)
+        if not peer_saw_end or YowNetworkLayer.EVENT_STATE_DISCONNECTED not in seen_events:
+            fails.append(oracle("C16:disconnect-request-does-not-end-connection",
+                                "%s dispatcher, connection up and idle, the application broadcasts DISCONNECT from its own thread: after 4 s the peer %s the connection end and "
+                                "DISCONNECTED was %s (events since the request: %s) — the layers above wait for an announcement that never comes, a keep-alive timeout closes nothing"
+                                % (case["dispatcher"], "saw" if peer_saw_end else "has NOT seen", "announced" if YowNetworkLayer.EVENT_STATE_DISCONNECTED in seen_events else "NOT announced",
+                                   [e.rsplit(".", 1)[-1] for e in seen_events][:6])))
     stop.set()
     for c in accepted:
         try:
